@@ -34,10 +34,39 @@ def read(repo, rel):
         die(f"cannot read {p}: {e}")
 
 
-def strip_tests_and_comments(src, tests=True):
-    # drop everything from the first `#[cfg(test)]` / `#[test]` on (test modules sit at the end of each file)
+def check_test_tail(tail, what):
+    """the part of a file that is dropped as tests consists of `#[cfg(test)] mod x { .. }` / `#[test] fn x() { .. }` items only
+    (a function defined after the test module would otherwise never be read)"""
+    code = strip_tests_and_comments(tail, tests=False)
+    last = 0
+    for header, body in blocks(code):
+        h = " ".join(header.split())
+        if not re.match(r"^(#\[cfg\(test\)\] mod \w+|#\[test\] fn \w+\(\))$", h):
+            die(f"{what}: after the first test item something else than a test item follows: `{h[:80]}`")
+    depth, i = 0, 0
+    while i < len(code):
+        j = _skip_literal(code, i)
+        if j is not None:
+            i = j
+            continue
+        if code[i] == "{":
+            depth += 1
+        elif code[i] == "}":
+            depth -= 1
+            if depth == 0:
+                last = i + 1
+        i += 1
+    if code[last:].strip():
+        die(f"{what}: text after the last test item: `{code[last:].strip()[:80]}`")
+
+
+def strip_tests_and_comments(src, tests=True, what=None):
+    # drop everything from the first `#[cfg(test)]` / `#[test]` on (test items sit at the end of each file; that nothing
+    # but test items follows is checked)
     m = re.search(r"^#\[(cfg\(test\)|test)\]", src, flags=re.M)
     if m and tests:
+        if what is not None:
+            check_test_tail(src[m.start():], what)
         src = src[:m.start()]
     out = []
     i, n = 0, len(src)
@@ -105,6 +134,61 @@ SITE = re.compile(
     r"|" + STR + r"\s*=>\s*(unpack)!\((\w+)\)"                              # 11,12,13
     r"|\.(scope)\.0\s*==\s*" + STR,                                       # 14,15
     flags=re.S)
+
+
+ANY_LITERAL = re.compile(r'r#".*?"#|"(?:[^"\\]|\\.)*"|\'(?:[^\'\\]|\\.)\'', re.S)
+
+
+def check_literals_accounted(fn, src):
+    """every string / char literal of a parser file lies inside a recognised literal site or a pinned clause: a literal
+    handed to a combinator this translator does not know (char('x'), is_a(".."), a new match arm ...) fails here"""
+    spans = [m.span() for m in SITE.finditer(src)]
+    for m in SITE.finditer(src):
+        if m.group(8):          # escaped(normal, 'c', escapable): the control character
+            mm = re.compile(r"\)\s*,\s*" + CHR + r"\s*,").search(src, m.end())
+            if mm:
+                spans.append(mm.span())
+    for f, rx, _ in PINNED:
+        if f == fn:
+            spans += [m.span() for m in re.finditer(rx, src)]
+    for m in ANY_LITERAL.finditer(src):
+        a, b = m.span()
+        if not any(x <= a and b <= y for x, y in spans):
+            die(f"{fn}: literal {m.group(0)} (after `{src[max(0, a - 40):a].strip()[-40:]}`) is at no site this translator reads")
+
+
+def check_match_arms(src):
+    """thrift.rs: the item dispatch `match keyword { .. }` has exactly the ten keyword arms and the `_` arm"""
+    for header, body in blocks(src):
+        if header.startswith("impl Parser for Item"):
+            inner = blocks(body)[0][1]
+            i = inner.find("match keyword")
+            if i < 0:
+                die("thrift.rs: `match keyword` not found")
+            mb = None
+            for h2, b2 in blocks(inner[i:]):
+                if h2.startswith("match keyword"):
+                    mb = b2
+                    break
+            if mb is None:
+                die("thrift.rs: body of `match keyword` not found")
+            depth, arms, k = 0, 0, 0
+            while k < len(mb):
+                j = _skip_literal(mb, k)
+                if j is not None:
+                    k = j
+                    continue
+                if mb[k] in "{(":
+                    depth += 1
+                elif mb[k] in "})":
+                    depth -= 1
+                elif mb.startswith("=>", k) and depth == 0:
+                    arms += 1
+                k += 1
+            if arms != 11 or re.search(r"\bif\b[^=]*=>|\|[^|=]*=>", re.sub(r'"[^"]*"', '""', mb.split("_ =>")[0])):
+                die(f"thrift.rs: the item dispatch has {arms} arms (expected 10 keywords and `_`), or a guarded / or-pattern arm")
+            return
+    die("thrift.rs: impl Parser for Item not found")
 
 
 def sites(src):
@@ -213,9 +297,10 @@ def gen_consts(repo):
            "From Coq Require Import List.", "From Coq.Strings Require Import Byte.", "Import ListNotations.", ""]
     allvals = {}
     for fn in sorted(SHAPES):
-        src = strip_tests_and_comments(read(repo, os.path.join(PARSER_DIR, fn)))
+        src = strip_tests_and_comments(read(repo, os.path.join(PARSER_DIR, fn)), what=fn)
         got = sites(src)
         want = SHAPES[fn]
+        check_literals_accounted(fn, src)
         if [k for k, _ in got] != [k for k, _ in want]:
             die(f"{fn}: unexpected shape: literal sites {[k for k, _ in got]} (expected {[k for k, _ in want]})")
         out.append(f"(* {fn} *)")
@@ -227,6 +312,7 @@ def gen_consts(repo):
             allvals[role] = val
             out.append(f"Definition {role} : list byte := {coq_bytes(val)}.  (* {kind} <{comment_of(val)}> *)")
         out.append("")
+    check_match_arms(strip_tests_and_comments(read(repo, os.path.join(PARSER_DIR, "thrift.rs"))))
     for fn, rx, cnt in PINNED:
         src = strip_tests_and_comments(read(repo, os.path.join(PARSER_DIR, fn)))
         n = len(re.findall(rx, src))
@@ -401,9 +487,13 @@ def parser_functions(repo):
     {alias: function} for the functions a macro invocation defines"""
     fns, alias, order = {}, {}, []
     for fn in sorted(SHAPES):
-        src = strip_tests_and_comments(read(repo, os.path.join(PARSER_DIR, fn)))
+        src = strip_tests_and_comments(read(repo, os.path.join(PARSER_DIR, fn)), what=fn)
+        before = len(order)
+        has_trait = 0
         for header, body in blocks(src):
-            h = re.sub(r"#\[[^\]]*\]", "", header).strip()
+            if re.search(r"#!?\[", header):
+                die(f"{fn}: attribute on a top-level item (`{' '.join(header.split())[:80]}`): conditional compilation is not modelled")
+            h = header.strip()
             m = re.match(r"impl\s+Parser\s+for\s+(\w+)$", h)
             if m:
                 inner = blocks(body)
@@ -416,9 +506,17 @@ def parser_functions(repo):
             elif re.match(r"macro_rules!\s*(\w+)$", h):
                 mac = re.match(r"macro_rules!\s*(\w+)$", h).group(1)
                 name = mac + "!"
-                for a in re.findall(r"^\s*" + mac + r"!\(\s*(\w+)\s*,", src, flags=re.M):
+                found = re.findall(r"^\s*" + mac + r"!\(\s*(\w+)\s*,", src, flags=re.M)
+                if len(found) != len(re.findall(r"\b" + mac + r"!\s*[\(\[\{]", src)):
+                    die(f"{fn}: an invocation of {mac}! is not of the form `{mac}!(name, ..)`")
+                for a in found:
                     alias[a] = name
-            elif re.match(r"(pub\s+)?use\b", h) or re.match(r"(pub(\([a-z]+\))?\s+)?trait\s+Parser\b", h):
+            elif re.match(r"(pub\s+)?use\b", h):
+                continue
+            elif re.match(r"(pub(\([a-z]+\))?\s+)?trait\s+Parser\b", h):
+                has_trait += len(re.findall(r"\bfn\s+\w+", body))
+                if blocks(body):
+                    die(f"{fn}: trait Parser has a method with a body")
                 continue
             else:
                 die(f"{fn}: top-level block not understood: `{h[:80]}`")
@@ -426,6 +524,11 @@ def parser_functions(repo):
                 die(f"duplicate parser function {name}")
             fns[name] = (fn, body)
             order.append(name)
+        # every `fn` of the file is one of the scanned functions (a nested or otherwise unlisted helper is not silently
+        # folded into / left out of the inventories)
+        nfn = len(re.findall(r"\bfn\s+[\w$]+", src))
+        if nfn != len(order) - before + has_trait:
+            die(f"{fn}: {nfn} `fn` items, {len(order) - before} scanned functions (+{has_trait} trait signatures): a function is not scanned on its own")
     return fns, alias, order
 
 
@@ -497,9 +600,10 @@ def nom_loops(repo, used):
     """[(combinator, True iff its body in the nom source named by Cargo.lock is a `loop` / `for` / `while` and does not
     call itself)] for the combinators the parser uses"""
     lock = read(repo, "Cargo.lock")
+    ms = re.findall(r'name = "nom"\nversion = "([^"]+)"', lock)
+    if len(ms) != 1:
+        die(f"Cargo.lock names {len(ms)} versions of nom (expected 1)")
     m = re.search(r'name = "nom"\nversion = "([^"]+)"', lock)
-    if not m:
-        die("nom not in Cargo.lock")
     import glob
     roots = sorted(glob.glob(os.path.expanduser("~/.cargo/registry/src/*/nom-" + m.group(1))))
     if not roots:
@@ -575,6 +679,11 @@ def panic_sites_of(code):
     add("unwrap", len(re.findall(r"\.\s*(?:unwrap|expect|unwrap_err|expect_err)\s*\(", code)))
     add("panic", len(re.findall(PANIC_MACROS, code)))
     add("slice", len(re.findall(r"[\w)\]]\s*\[", code)) + len(re.findall(r"\.\s*split_at(?:_mut)?\s*\(", code)))
+    # methods that panic on a bad index / overflow / zero / double borrow
+    add("call", len(re.findall(r"\.\s*(?:abs|pow|neg|remove|swap_remove|drain|insert|split_off|copy_from_slice|clone_from_slice|chunks|"
+                               r"chunks_exact|windows|step_by|rem_euclid|div_euclid|borrow_mut|borrow|swap|rotate_left|rotate_right|"
+                               r"from_digit|unwrap_unchecked|next_power_of_two|ilog2|ilog10|isqrt)\s*\(", code)))
+    add("arith", len(re.findall(r"[\w)\]]\s*(?:<<|>>)=?\s*[\w(]", code)))
     n = len(code)
     for m in re.finditer(r"[-+*/%]", code):
         i, ch = m.start(), m.group(0)
